@@ -14,9 +14,10 @@ Hypotheses and where they come from
   - sibling names differ: `Entry.add` / `Entry.merge` refuse a second child of the same name
     (Model/Entry.lean), `wrapCases` and `removeAt` keep names; in Go `Dir` is a map;
   - an rpc/action has no `Dir` children, and only an rpc/action has input/output: `toEntry` gives an
-    rpc only `input`/`output` (`fieldOrder "rpc"`) — BUT goyang accepts `augment "/m:r"` whose
-    target is the rpc itself (RFC 7950 7.17 forbids it) and files the new nodes in the rpc's `Dir`,
-    where no path reaches them: documented limit L2 (runner witness `augment-into-rpc`);
+    rpc only `input`/`output` (`fieldOrder "rpc"`), and `augmentTree` refuses an rpc/action node
+    itself as target (`cannotHaveChildren` includes `isRpc`; Go: repair 049247d of the former limit
+    D17-L2 — `augment "/m:r"` used to file nodes in the rpc's `Dir`, where no path reaches them;
+    runner case `augment-into-rpc-rejected`);
   - child names are spellable (`goodName`: not empty, not `.`/`..`, no `/`, no `:`): NOT guaranteed —
     goyang never checks that a node name is a YANG identifier, so `leaf "a/b"`, `container ".."`,
     `leaf "p:x"` are accepted and cannot be named by any path: documented limit L1 (runner
